@@ -67,6 +67,8 @@ class Check(core.CheckBase):  # pylint: disable=too-many-public-methods
         import cryptoparser.common.parse as parse  # pylint: disable=import-outside-toplevel
         from cryptodatahub.common.exception import InvalidValue  # pylint: disable=import-outside-toplevel
         self.parse = parse
+        import cryptoparser.tls.subprotocol as sub  # pylint: disable=import-outside-toplevel
+        self.sub = sub
         self.InvalidValue = InvalidValue  # pylint: disable=invalid-name
         self.flag_classes = {}
         for name, cls in inventory.int_enums().items():
@@ -345,25 +347,30 @@ class Check(core.CheckBase):  # pylint: disable=too-many-public-methods
                         'mpint|ssh-compose-mismatch|' + sign,
                         'compose_ssh_mpint(%d bits, %s) = %s.., RFC 4251 says %s..' % (
                             value.bit_length(), sign, composed[:12].hex(), reference[:12].hex()), single))
-                parser = self.parse.ParserBinary(composed + b'\x07')
-                parser.parse_ssh_mpint('value')
-                if parser['value'] != value or parser.parsed_length != len(composed):
-                    found.append(self.violation(
-                        'mpint|ssh-round-trip|' + sign,
-                        'parse_ssh_mpint(compose_ssh_mpint(v)) != v for a %d-bit %s integer (composed %s..)' % (
-                            value.bit_length(), sign, composed[:12].hex()), single))
+                # whatever follows the mpint (the next field of a message) must not leak into it
+                for suffix in (b'\x07', b'\xff\x80', b'\x80', b''):
+                    parser = self.parse.ParserBinary(composed + suffix)
+                    parser.parse_ssh_mpint('value')
+                    if parser['value'] != value or parser.parsed_length != len(composed):
+                        found.append(self.violation(
+                            'mpint|ssh-round-trip|' + sign,
+                            'parse_ssh_mpint(compose_ssh_mpint(v) + %s) != v for a %d-bit %s integer (composed %s..): %r' % (
+                                suffix.hex(), value.bit_length(), sign, composed[:12].hex(), parser['value']), single))
+                        break
             except Exception as e:  # pylint: disable=broad-except
                 found.append(self.violation('mpint|ssh-compose-raises:%s|%s' % (type(e).__name__, sign),
                                             'compose_ssh_mpint(%d-bit %s): %r' % (value.bit_length(), sign, e), single))
             try:
-                parser = self.parse.ParserBinary(reference + b'\x01\x02\x03')
-                parser.parse_ssh_mpint('value')
-                if parser['value'] != value or parser.parsed_length != len(reference):
-                    found.append(self.violation(
-                        'mpint|ssh-parse-mismatch|' + sign,
-                        'parse_ssh_mpint(%s..) of a %d-bit %s integer returned a different value or length %d != %d' % (
-                            reference[:12].hex(), value.bit_length(), sign, parser.parsed_length, len(reference)),
-                        single))
+                for suffix in (b'\x01\x02\x03', b'\xff', b'\x80\x00', b''):
+                    parser = self.parse.ParserBinary(reference + suffix)
+                    parser.parse_ssh_mpint('value')
+                    if parser['value'] != value or parser.parsed_length != len(reference):
+                        found.append(self.violation(
+                            'mpint|ssh-parse-mismatch|' + sign,
+                            'parse_ssh_mpint(%s.. + %s) of a %d-bit %s integer returned %r / length %d != %d' % (
+                                reference[:12].hex(), suffix.hex(), value.bit_length(), sign, parser['value'], parser.parsed_length,
+                                len(reference)), single))
+                        break
             except Exception as e:  # pylint: disable=broad-except
                 found.append(self.violation('mpint|ssh-parse-raises:%s|%s' % (type(e).__name__, sign),
                                             'parse_ssh_mpint(%d-bit %s): %r' % (value.bit_length(), sign, e), single))
@@ -456,6 +463,28 @@ class Check(core.CheckBase):  # pylint: disable=too-many-public-methods
                                     'compose_timestamp(%s, ms=%s, size=%d) = %s under TZ=%s, epoch value is %d' % (
                                         value.isoformat(), milliseconds, item_size, composed.hex(), zone, want),
                                     single))
+                # the other place where the library writes an instant with its own arithmetic: gmt_unix_time of the hello random
+                if seconds < 2 ** 32:
+                    for kind, value in variants.items():
+                        self.stats['hello_random_evaluations'] += 1
+                        try:
+                            hello_random = self.sub.TlsHandshakeHelloRandom(
+                                value.replace(microsecond=0), self.sub.TlsHandshakeHelloRandomBytes(bytearray(28)))
+                            composed = bytes(hello_random.compose())[:4]
+                            parsed = self.sub.TlsHandshakeHelloRandom.parse_exact_size(seconds.to_bytes(4, 'big') + bytes(28)).time
+                        except Exception as e:  # pylint: disable=broad-except
+                            found.append(self.violation('timestamp|hello-random-raises:%s|%s' % (type(e).__name__, kind),
+                                                        'hello random for %s under TZ=%s: %r' % (value.isoformat(), zone, e), single))
+                            continue
+                        if composed != seconds.to_bytes(4, 'big'):
+                            found.append(self.violation(
+                                'timestamp|hello-random-wrong-instant|%s' % kind,
+                                'gmt_unix_time of a hello random built with %s is %s under TZ=%s, the epoch value is %d' % (
+                                    value.isoformat(), composed.hex(), zone, seconds), single))
+                        if parsed.replace(tzinfo=UTC) != aware_sec if parsed.tzinfo is None else parsed != aware_sec:
+                            found.append(self.violation(
+                                'timestamp|hello-random-parse-mismatch',
+                                'gmt_unix_time %d parsed under TZ=%s as %r' % (seconds, zone, parsed), single))
                 # parse side
                 for item_size, milliseconds in ((8, False), (8, True), (4, False)):
                     number = (seconds * 1000 + millis) if milliseconds else seconds
